@@ -92,9 +92,20 @@ func RunC02(ctx *core.Ctx) {
 				if r.Intn(3) == 0 {
 					prof.RunLen = 70
 				}
+				if k == 1 {
+					// every dictionary-encoded column falls back to PLAIN inside the row group
+					n = []int{130, 300}[r.Intn(2)]
+					prof.SmallDomain = false
+				}
 				rows := e.NewRows(n)
 				gen.FillRows(r, rows, prof)
 				cfg := gen.RandWriterCfg(r)
+				if k == 1 {
+					cfg = gen.PlainWriterCfg(r)
+					cfg.DictMax = 16
+					cfg.Opts = append(cfg.Opts, parquet.DictionaryMaxBytes(16))
+					cfg.Desc += " dictmax=16"
+				}
 				// bloom filters on every leaf column, sometimes
 				opts := cfg.Opts
 				desc := cfg.Desc
@@ -109,12 +120,15 @@ func RunC02(ctx *core.Ctx) {
 				// value-level agreement covers uncompressed and snappy chunks: force one of the two
 				// file-wide in 40 % of the cases (a later option overrides the earlier one; fields
 				// carrying their own codec tag keep it)
-				if x := r.Intn(10); x < 4 {
+				if x := r.Intn(10); x < 4 || k == 1 {
 					name := []string{"none", "snappy"}[x%2]
 					opts = append(append([]parquet.WriterOption{}, opts...), parquet.Compression(gen.Codecs[name]))
 					desc += " filecodec=" + name
 				}
 				mode := []string{"direct", "direct", "reset-reuse", "copy-from-file", "copy-from-buffer"}[r.Intn(5)]
+				if k == 1 {
+					mode = "direct"
+				}
 				file, err := c02Write(e, rows, mode, opts, c01Batches(r, n), r)
 				detail := map[string]any{"type": e.Name, "config": desc, "mode": mode, "rows": n, "seed_stream": "c02/" + e.Name, "case_index": k}
 				if err != nil {
